@@ -478,6 +478,15 @@ def native_C19(tier, seed):
         def map(self, f, xs):
             return list(map(f, xs))
 
+        def imap(self, f, xs):
+            return iter(self.map(f, xs))
+
+        def imap_unordered(self, f, xs):
+            return iter(reversed(self.map(f, xs)))       # completion order is arbitrary: the stand-in returns the reverse
+
+        def starmap(self, f, xs):
+            return [f(*x) for x in xs]
+
         def close(self):
             self.closed = True
 
@@ -485,7 +494,10 @@ def native_C19(tier, seed):
             self.joined = True
 
     def ll(s, map_fn=None):
-        return 0.0
+        # documented recipe: per-row evaluation through the map the pool context injects
+        if map_fn is None or s is None:
+            return 0.0
+        return list(map_fn(float, s))
 
     def lp(s, map_fn=None):
         return 0.0
@@ -521,6 +533,13 @@ def native_C19(tier, seed):
                         cm = a.auto_checkpoint("/tmp/a.h5" if k != "ckpt_b" else "/tmp/b.h5", every=2 + level, save_config=bool(level % 2), save_flow=not bool(level % 2))
                     try:
                         with cm:
+                            if k == "pool":
+                                rows = [3.0, 1.0, 2.0]
+                                got_rows = a.log_likelihood(rows)
+                                if list(got_rows) != rows:
+                                    fails.append({"id": f"C19-pool-order-L{level}", "obligation": "results in the order of its inputs",
+                                                  "what": f"inside the pool context the per-row likelihood values come back as {list(got_rows)} for rows {rows}",
+                                                  "input": {"nesting": list(nest), "rows": rows}})
                             if k != "pool":
                                 a._checkpoint_defaults["saved_config"] = True
                             if exc_at == level:
